@@ -90,7 +90,7 @@ func TestWorker(t *testing.T) {
 		defer hang.Stop()
 		res := runner.Run(t, p)
 		vs := oracle.Check(p, res)
-		if p.Property == "C09" && p.Family != "solo" {
+		if p.Property == "C09" && p.Family != "solo" && p.Scen.Server == "ref" {
 			sp, conn, sess := plan.SoloPlans(p)
 			var solos []*runner.Result
 			for _, q := range sp {
